@@ -3,11 +3,12 @@
 import glob, json, os, subprocess, sys
 V = os.path.dirname(os.path.abspath(__file__))
 ALL = [json.loads(l)["id"] for l in open(os.path.join(V, "properties.jsonl"))]
+REGISTERED = set(open(os.path.join(V, "registered.txt")).read().split())   # checks verified green on the unchanged tree
 checks, claimed = [], set()
 for p in sorted(glob.glob(os.path.join(V, "props", "c*.json"))):
     m = json.load(open(p))
     pid = os.path.basename(p)[:-5].upper()
-    if not m.get("registered", True):
+    if pid not in REGISTERED:
         continue
     claimed.add(pid)
     checks.append({
